@@ -310,6 +310,10 @@ def via_collection(s, idx):
     docs = [ro_txt]
     for k in range(rng.randint(2, 6)):
         docs.append(gen.rand_message(rng, state, rng.choice(CARRYING[:6] + CARRYING[9:]), 10 + k, ids, pool=pool))
+    judge_twice(s, docs)
+
+
+def judge_twice(s, docs):
     a, _, ea, _ = K.collection_merge(s, docs, False)
     b, _, eb, _ = K.collection_merge(s, docs, False)
     if a is not None and b is not None:
@@ -342,8 +346,10 @@ def replay(s, data):
     if w.get('scenario') == 'any':
         judge_reuse(s, w['ro_txt'], w['msg_txt'], w['kind'], 0)
         return
+    if w.get('type') == 'collection':
+        return judge_twice(s, w['docs'])
     if w.get('type') != 'c13':
-        return K.replay_transition(s, data) if w.get('type') == 'transition' else None
+        return K.replay_transition(s, data)
     ro1 = s.load(w['ro_txt'])
     m = s.load(w['msg_txt'])
     t0 = str(m)
